@@ -1300,7 +1300,9 @@ cd {ROOT}
                             atticName = datetime.datetime.now().isoformat().translate(INVALID_CHAR_TRANS)+"_"+os.path.basename(scmPath)
                             stepMessage(checkoutStep, "ATTIC",
                                 "{} (move to ../attic/{})".format(scmPath, atticName), WARNING)
-                            atticPath = os.path.join(prettySrcPath, "..", "attic")
+                            # Normalize: the workspace itself might be moved
+                            # (scmDir "."). Paths through it cease to resolve.
+                            atticPath = os.path.normpath(os.path.join(prettySrcPath, "..", "attic"))
                             if not os.path.isdir(atticPath):
                                 os.makedirs(atticPath)
                             atticPath = os.path.join(atticPath, atticName)
